@@ -78,6 +78,7 @@ DEFAULT_OPTS = {
     "kinds": None,              # per data column: "str" | "int" | "float"
     "convert": True,
     "prefixes": False,          # also run every proper prefix (C04 PrefixStable)
+    "tcv": False,               # text_convert is a per-ROW matrix (row 1 on, the others off) and the wrapping texts are full of '_' (printed verbatim)
     "numh": None,               # "int" | "float": row heights produced by a NUMERIC column (narrow, wrapping digits) instead of a text cell
     "gby": 0,                   # > 0: the second data column is a group_by column whose label needs that many lines
     "repage": False,            # the document was constructed on ANOTHER page object (other table width); the scenario's page is assigned afterwards
@@ -93,25 +94,25 @@ def _width_in(text, font, size):
     return get_string_width(text, font=font, font_size=size, unit="in")
 
 
-def filler(tag: str, h: int, colw: float, font=1, size=9) -> str:
+def filler(tag: str, h: int, colw: float, font=1, size=9, unit="x") -> str:
     """Text starting with `tag` whose width is in the middle of the h-line band of a column of
     width colw (so the height is unambiguous: well inside the band for estimator and reader)."""
     if h <= 1:
         return tag
-    key = (len(tag), h, round(colw, 6), font, size)
+    key = (len(tag), h, round(colw, 6), font, size, unit)
     k = _fill_cache.get(key)
     if k is None:
         target = (h - 0.5) * colw
         lo, hi = 0, 4000
         while lo < hi:
             mid = (lo + hi) // 2
-            if _width_in(tag + " " + "x" * mid, font, size) < target:
+            if _width_in(tag + " " + unit * mid, font, size) < target:
                 lo = mid + 1
             else:
                 hi = mid
         k = lo
         _fill_cache[key] = k
-    s = tag + " " + "x" * k
+    s = tag + " " + unit * k
     w = _width_in(s, font, size) / colw
     assert h - 1 + 0.2 < w < h - 0.2, (w, h)
     return s
@@ -262,6 +263,8 @@ def build(c, o, nrows=None):
             elif k == 1 and gby:
                 # group_by column: runs of three rows share one label that needs `gby` lines in its column
                 data[x].append(filler("g%02d" % ((r - 1) // 3), gby, colw[x], 1, 9))
+            elif k == 0 and o.get("tcv") and o["texts"] is None:
+                data[x].append(filler("d%03d" % r, c["h"][r - 1], colw[x], 1, 9, unit="x_"))
             elif k == 0:
                 # heights are those of the implementation's estimator (font 1, 9pt)
                 data[x].append(filler("d%03d" % r, c["h"][r - 1], colw[x], 1, 9))
@@ -308,6 +311,8 @@ def build(c, o, nrows=None):
         body_kw["border_bottom"] = umatrix(o["ubot"])
     if gby:
         body_kw["group_by"] = [dcols[1]]
+    if o.get("tcv") and o["texts"] is None and n >= 1:
+        body_kw["text_convert"] = [[True]] + [[False]] * (n - 1)
     if o["relw"] or o.get("relwk", "equal") != "equal" or dup or numh:
         body_kw["col_rel_width"] = list(relw_kept) if str(o.get("relwk", "")).endswith("disp") and not o["relw"] and not dup and not numh else list(relw_all)
     if o["font"] != 1:
